@@ -28,7 +28,7 @@ import z3
 
 from . import ctx as _ctx
 from .ctx import BoundExceeded, SymxSignal, Unsupported
-from .values import (SymBool, SymInt, SymStr, int_to_str, is_sym, to_z3_bool, to_z3_int,
+from .values import (SymBool, SymEnum, SymInt, SymStr, int_to_str, is_sym, to_z3_bool, to_z3_int,
                      wrap_bool, wrap_int)
 
 ALLOWED_PREFIXES = ["hugr.", "vrf.harness", "vrf.oracle"]
@@ -176,6 +176,7 @@ class Interp:
         self.intercepts: dict[int, Any] = {}
         self.intercept_objs: list[Any] = []
         self.class_stubs: list[Any] = []  # callables (cls, args, kwargs) -> result | NotImplemented
+        self.concretize_at: dict[int, Any] = {}  # id(native callable) -> callable: symbolic scalar args are realised first
         self.depth = 0
         self.max_depth = 400
         self._install_builtin_intercepts()
@@ -234,8 +235,18 @@ class Interp:
     # ------------------------------------------------------------------
     # calls
     # ------------------------------------------------------------------
+    def concretize_boundary(self, f):
+        """Declare a native (C-level) function at whose boundary symbolic scalars are realised by forking."""
+        self.concretize_at[id(f)] = f
+
     def call(self, f, args=(), kwargs=None):
         kwargs = kwargs or {}
+        if id(f) in self.concretize_at:
+            from .sym import concretize
+            _ctx.cur().stats.stubs.add(f"realise-at-boundary:{getattr(f, '__module__', '')}.{getattr(f, '__name__', f)}")
+            args = tuple(concretize(a) for a in args)
+            kwargs = {k: concretize(v) for k, v in kwargs.items()}
+            return f(*args, **kwargs)
         ic = self.intercepts.get(id(f))
         if ic is not None:
             r = ic(self, args, kwargs)
@@ -280,8 +291,21 @@ class Interp:
                 return r
         mod = getattr(cls, "__module__", "")
         if not any(mod.startswith(p) for p in ALLOWED_PREFIXES):
+            if isinstance(cls, enum.EnumMeta) and len(args) == 1 and not kwargs and is_sym(args[0]):
+                for m in cls:
+                    if self.truth(operator.eq(args[0], m.value)):
+                        return m
+                raise ValueError(f"<symbolic> is not a valid {cls.__qualname__}")
             return cls(*args, **kwargs)
-        if issubclass(cls, enum.Enum) or type(cls) is not type and not _plain_metaclass(cls):
+        if issubclass(cls, enum.Enum):
+            if len(args) == 1 and not kwargs and is_sym(args[0]):
+                # Enum(value) on a symbolic value: fork per member, else ValueError (as enum does)
+                for m in cls:
+                    if self.truth(operator.eq(args[0], m.value)):
+                        return m
+                raise ValueError(f"<symbolic> is not a valid {cls.__qualname__}")
+            return cls(*args, **kwargs)
+        if type(cls) is not type and not _plain_metaclass(cls):
             return cls(*args, **kwargs)
         new = _mro_lookup(cls, "__new__")
         init = _mro_lookup(cls, "__init__")
@@ -440,6 +464,10 @@ class Interp:
     def is_(self, a, b):
         if a is b:
             return True
+        if isinstance(a, SymEnum) or isinstance(b, SymEnum):
+            if a is None or b is None:
+                return False
+            return operator.eq(a, b)
         if isinstance(a, SymBool) and isinstance(b, bool):
             return wrap_bool(a.z == z3.BoolVal(b))
         if isinstance(b, SymBool) and isinstance(a, bool):
@@ -447,6 +475,8 @@ class Interp:
         return False
 
     def isinstance_(self, x, t):
+        if isinstance(x, SymEnum):
+            return issubclass(x.cls, t)
         if is_sym(x):
             ts = t if isinstance(t, tuple) else (t,)
             flat = []
@@ -466,6 +496,8 @@ class Interp:
         return isinstance(x, t)
 
     def type_(self, x):
+        if isinstance(x, SymEnum):
+            return x.cls
         if isinstance(x, SymInt):
             return int
         if isinstance(x, SymBool):
@@ -475,6 +507,8 @@ class Interp:
         return type(x)
 
     def str_(self, x):
+        if isinstance(x, SymEnum):
+            return self.str_(x.concretize())
         if isinstance(x, SymInt):
             return int_to_str(x)
         if isinstance(x, SymBool):
@@ -494,6 +528,8 @@ class Interp:
         return str(x)
 
     def repr_(self, x):
+        if isinstance(x, SymEnum):
+            return self.repr_(x.concretize())
         if isinstance(x, SymInt):
             return int_to_str(x)
         if isinstance(x, SymBool):
@@ -531,6 +567,13 @@ class Interp:
     # ------------------------------------------------------------------
     def getattr_(self, obj, name):
         if is_sym(obj):
+            return getattr(obj, name)
+        if isinstance(obj, SymEnum):
+            if name in ("value", "name"):
+                return getattr(obj, name)
+            m = _mro_lookup(obj.cls, name)
+            if isinstance(m, types.FunctionType) and self.interpretable(m):
+                return types.MethodType(m, obj)  # interpreted with a symbolic self
             return getattr(obj, name)
         if not isinstance(obj, type):
             t = type(obj)
@@ -1535,3 +1578,9 @@ def _plain_metaclass(cls) -> bool:
 
 
 INTERP = Interp()
+try:
+    import pyzstd as _pyzstd
+    INTERP.concretize_boundary(_pyzstd.compress)
+    INTERP.concretize_boundary(_pyzstd.decompress)
+except ImportError:  # pragma: no cover
+    pass
